@@ -356,8 +356,16 @@ func generatedDescribeSpec(r *gen.Rng) *iso8583.MessageSpec {
 	panEnc := gen.Pick(r, []encoding.Encoder{encoding.ASCII, encoding.EBCDIC, encoding.BCD, encoding.EBCDIC1047})
 	panPref := gen.Pick(r, []prefix.Prefixer{prefix.ASCII.LL, prefix.BCD.LL, prefix.EBCDIC.LL, prefix.Binary.L})
 	t2 := &field.Spec{Length: 37, Description: "Track 2 Data", Enc: encoding.ASCII, Pref: prefix.ASCII.LL}
-	if r.Intn(2) == 0 {
+	switch r.Intn(4) {
+	case 0:
 		t2 = &field.Spec{Length: 40, Description: "Track 2 Data", Enc: encoding.EBCDIC, Pref: prefix.EBCDIC.LL, Pad: padding.Right(' ')}
+	case 1:
+		// a track field that holds well-formed track data but can not be packed by its own
+		// spec ('=' / 'D' are not BCD digits; odd lengths are not hex): the filter must still mask
+		t2 = &field.Spec{Length: 37, Description: "Track 2 Data", Enc: encoding.BCD, Pref: prefix.BCD.LL}
+		if r.Intn(2) == 0 {
+			t2 = &field.Spec{Length: 37, Description: "Track 2 Data", Enc: encoding.ASCIIHexToBytes, Pref: prefix.Binary.L}
+		}
 	}
 	return &iso8583.MessageSpec{Name: "generated", Fields: map[int]field.Field{
 		0:  field.NewString(&field.Spec{Length: 4, Description: "MTI", Enc: encoding.ASCII, Pref: prefix.ASCII.Fixed}),
